@@ -3069,6 +3069,8 @@ class RoAffine:
         for arg in args:
             if not isinstance(arg, RandVal):
                 raise TypeError('Unsupported type for defining random variable values.')
+            if arg.rvar.model is not self.rand_model:
+                raise ValueError('Models mismatch.')
 
             index = range(arg.rvar.first, arg.rvar.last)
             rvec[index] = arg.values.ravel()
@@ -3718,6 +3720,8 @@ class DecVar(Vars):
                 return outputs[0]
         else:
             outputs = []
+            if rvar.model is not dro_model.sup_model:
+                raise ValueError('Models mismatch.')
             drule_list = dro_model.rule_var()
             if isinstance(drule_list[0], Affine):
                 raise ValueError('Decision not affinely adaptive!')
@@ -5418,6 +5422,8 @@ class DecRule:
         else:
             if rvar.model.mtype != 'S':
                 raise ValueError('The input is not a random variable.')
+            if rvar.model is not self.model.sup_model:
+                raise ValueError('Models mismatch.')
             ldr_row, ldr_col = self.size, self.model.rc_model.vars[-1].last
             ldr_coeff = np.array([[np.nan] * ldr_col] * ldr_row)
             rand_ind = rvar.get_ind()
